@@ -183,49 +183,49 @@ def closeFrame (f : Frame) (body : List Node) : Node :=
   | .apply => .apply f.arg f.line body
   | .block => .block f.arg f.line body
 
-/-- one `{% … %}` directive (`contents` already stripped and non-empty); errors are raised at `le` -/
-def blockTag (st : BState) (contents : Str) (l le : Nat) : Except PErr BState :=
+/-- one `{% … %}` directive (`contents` already stripped and non-empty): new state or the kind of error -/
+def blockTagK (st : BState) (contents : Str) (l : Nat) : Except ErrKind BState :=
   let (op, rest) := partitionSp contents
   let suffix := strip rest
   match interParents op with
   | some allowed =>
     match st.stack with
-    | [] => .error ⟨.interOutside, le⟩
+    | [] => .error .interOutside
     | f :: _ =>
       if allowed.contains f.op then .ok (push st (.inter contents l))
-      else .error ⟨.interNotAttachable, le⟩
+      else .error .interNotAttachable
   | none =>
     if op == (/-"end"-/ [101, 110, 100] : List Nat) then
       match st.stack with
-      | [] => .error ⟨.extraEnd, le⟩
+      | [] => .error .extraEnd
       | f :: fs => .ok { st with stack := fs, cur := closeFrame f st.cur.reverse :: f.saved }
     else if isSimpleOp op then
       if op == (/-"comment"-/ [99, 111, 109, 109, 101, 110, 116] : List Nat) then .ok st
       else if op == (/-"extends"-/ [101, 120, 116, 101, 110, 100, 115] : List Nat) then
         let sfx := stripChar 39 (stripChar 34 suffix)
-        if sfx.isEmpty then .error ⟨.extendsMissing, le⟩ else .ok (push st (.extends sfx))
+        if sfx.isEmpty then .error .extendsMissing else .ok (push st (.extends sfx))
       else if op == (/-"import"-/ [105, 109, 112, 111, 114, 116] : List Nat) || op == (/-"from"-/ [102, 114, 111, 109] : List Nat) then
-        if suffix.isEmpty then .error ⟨.importMissing, le⟩ else .ok (push st (.stmt contents l))
+        if suffix.isEmpty then .error .importMissing else .ok (push st (.stmt contents l))
       else if op == (/-"include"-/ [105, 110, 99, 108, 117, 100, 101] : List Nat) then
         let sfx := stripChar 39 (stripChar 34 suffix)
-        if sfx.isEmpty then .error ⟨.includeMissing, le⟩ else .ok (push st (.incl sfx l))
+        if sfx.isEmpty then .error .includeMissing else .ok (push st (.incl sfx l))
       else if op == (/-"set"-/ [115, 101, 116] : List Nat) then
-        if suffix.isEmpty then .error ⟨.setMissing, le⟩ else .ok (push st (.stmt suffix l))
+        if suffix.isEmpty then .error .setMissing else .ok (push st (.stmt suffix l))
       else if op == (/-"autoescape"-/ [97, 117, 116, 111, 101, 115, 99, 97, 112, 101] : List Nat) then
-        if suffix.isEmpty then .error ⟨.autoescapeMissing, le⟩
+        if suffix.isEmpty then .error .autoescapeMissing
         else .ok { st with autoescape := if suffix == (/-"None"-/ [78, 111, 110, 101] : List Nat) then none else some suffix }
       else if op == (/-"whitespace"-/ [119, 104, 105, 116, 101, 115, 112, 97, 99, 101] : List Nat) then
         match wsOfName suffix with
-        | none => .error ⟨.badWhitespace, le⟩
+        | none => .error .badWhitespace
         | some m => .ok { st with ws := m }
       else if op == (/-"raw"-/ [114, 97, 119] : List Nat) then
-        if suffix.isEmpty then .error ⟨.rawMissing, le⟩ else .ok (push st (.expr suffix l true))
+        if suffix.isEmpty then .error .rawMissing else .ok (push st (.expr suffix l true))
       else -- module
-        if suffix.isEmpty then .error ⟨.moduleMissing, le⟩
+        if suffix.isEmpty then .error .moduleMissing
         else .ok (push st (.expr ((/-"_tt_modules."-/ [95, 116, 116, 95, 109, 111, 100, 117, 108, 101, 115, 46] : List Nat) ++ suffix) l true))
     else if isBlockOp op then
-      if op == (/-"apply"-/ [97, 112, 112, 108, 121] : List Nat) && suffix.isEmpty then .error ⟨.applyMissing, le⟩
-      else if op == (/-"block"-/ [98, 108, 111, 99, 107] : List Nat) && suffix.isEmpty then .error ⟨.blockMissing, le⟩
+      if op == (/-"apply"-/ [97, 112, 112, 108, 121] : List Nat) && suffix.isEmpty then .error .applyMissing
+      else if op == (/-"block"-/ [98, 108, 111, 99, 107] : List Nat) && suffix.isEmpty then .error .blockMissing
       else
         let inLoop := if op == (/-"for"-/ [102, 111, 114] : List Nat) || op == (/-"while"-/ [119, 104, 105, 108, 101] : List Nat) then true
                       else if op == (/-"apply"-/ [97, 112, 112, 108, 121] : List Nat) then false else inLoopOf st
@@ -233,8 +233,14 @@ def blockTag (st : BState) (contents : Str) (l le : Nat) : Except PErr BState :=
                            else if op == (/-"block"-/ [98, 108, 111, 99, 107] : List Nat) then (FrameKind.block, suffix) else (FrameKind.control, contents)
         .ok { st with stack := ⟨op, kind, arg, l, inLoop, st.cur⟩ :: st.stack, cur := [] }
     else if op == (/-"break"-/ [98, 114, 101, 97, 107] : List Nat) || op == (/-"continue"-/ [99, 111, 110, 116, 105, 110, 117, 101] : List Nat) then
-      if inLoopOf st then .ok (push st (.stmt contents l)) else .error ⟨.breakOutside, le⟩
-    else .error ⟨.unknownOp, le⟩
+      if inLoopOf st then .ok (push st (.stmt contents l)) else .error .breakOutside
+    else .error .unknownOp
+
+/-- every error of a directive is raised after the directive has been consumed: at `reader.line` = `le` -/
+def blockTag (st : BState) (contents : Str) (l le : Nat) : Except PErr BState :=
+  match blockTagK st contents l with
+  | .ok st' => .ok st'
+  | .error k => .error ⟨k, le⟩
 
 /-- one token -/
 def stepTok (st : BState) : Tok → Except PErr BState
